@@ -783,6 +783,132 @@ def drv_elementwise_typed_formula(c, ctx, col):
                 "column %s = %r, expected x = %r back" % (t, a[:, j].tolist(), list(x)))
 
 
+# ---------------------------------------------------------------------------
+# histories inside one interpreter: a user function that shadows the name of a preloaded stateful transform in one
+# formula must not change what the preloaded transform does (and records) in another formula, in either order.
+# Every history runs in a FRESH interpreter (module-level caches would otherwise leak between executions of a worker and
+# make a violation irreproducible from its choice vector).
+
+HIST_NAMES = ["scale", "center", "standardize", "poly"]
+HIST_EVENTS = ["plain-context", "plain-local", "builtin"]
+HIST_TRAIN = [1.0, 2.0, 4.0, 9.0]
+HIST_NEW = [0.0, 3.0, 10.0]
+
+HIST_PROBE = r"""
+import sys, json, warnings
+sys.path.insert(0, %r)
+repo = %r
+if repo: sys.path.insert(0, repo)
+warnings.simplefilter('ignore')
+import numpy, pandas
+from formulaic import model_matrix
+name, events, train, new = json.loads(%r)
+formula = (name + '(x, 2) - 1') if name == 'poly' else (name + '(x) - 1')
+def plain(v, *a):
+    return 2 * numpy.asarray(v, dtype=float) + 1
+def dense(m):
+    return numpy.asarray(m, dtype=float).tolist()
+def ev_plain_context():
+    mm = model_matrix(formula, pandas.DataFrame({'x': train}), context={name: plain})
+    return {'train': dense(mm), 'state_keys': sorted(mm.model_spec.transform_state)}
+def ev_plain_local():
+    env = {'model_matrix': model_matrix, 'pandas': pandas, 'train': train, 'plain': plain, 'formula': formula}
+    # the helper is a local variable of the calling frame, which model_matrix captures by default
+    exec('def run():\n    ' + name + ' = plain\n    return model_matrix(formula, pandas.DataFrame({\'x\': train}))\n', env)
+    mm = env['run']()
+    return {'train': dense(mm), 'state_keys': sorted(mm.model_spec.transform_state)}
+def ev_builtin():
+    mm = model_matrix(formula, pandas.DataFrame({'x': train}))
+    mm2 = mm.model_spec.get_model_matrix(pandas.DataFrame({'x': new}))
+    mm3 = mm.model_spec.get_model_matrix(pandas.DataFrame({'x': train}))
+    return {'train': dense(mm), 'new': dense(mm2), 'again': dense(mm3), 'state_keys': sorted(mm.model_spec.transform_state)}
+out = []
+for ev in events:
+    try:
+        out.append({'plain-context': ev_plain_context, 'plain-local': ev_plain_local, 'builtin': ev_builtin}[ev]())
+    except Exception as e:
+        out.append({'error': type(e).__name__ + ': ' + str(e)[:200]})
+print(json.dumps(out))
+"""
+
+
+def run_history(name, events):
+    import json
+    import os
+    import subprocess
+    import sys
+    verif = os.path.dirname(os.path.dirname(os.path.abspath(__file__)))
+    env = dict(os.environ, PYTHONHASHSEED="0")
+    p = subprocess.run([sys.executable, "-c", HIST_PROBE % (verif, os.environ.get("VERIF_REPO", ""), json.dumps([name, events, HIST_TRAIN, HIST_NEW]))],
+                       env=env, capture_output=True, text=True, timeout=600)
+    if p.returncode != 0:
+        raise RuntimeError("history probe failed: " + p.stderr[-2000:])
+    return json.loads(p.stdout.strip().splitlines()[-1])
+
+
+def drv_name_history(c, ctx, col):
+    name = c.pick(HIST_NAMES)
+    n = 2 + c.upto(ctx["D"] - 2)
+    events = [c.pick(HIST_EVENTS) for _ in range(n)]
+    if "builtin" not in events:
+        raise Skip()      # histories without the preloaded transform say nothing about it
+    got = run_history(name, events)
+    formula = (name + "(x, 2) - 1") if name == "poly" else (name + "(x) - 1")
+    where = "history %s in one interpreter, formula %r" % (" -> ".join(events), formula)
+    rep = Reporter(col, where, {"name": name, "events": events, "train": HIST_TRAIN, "new": HIST_NEW, "results": got,
+                                "repro": "step 'plain-context': model_matrix(%r, df, context={%r: lambda v, *a: 2*v+1}); step 'builtin': "
+                                         "mm = model_matrix(%r, df); mm.model_spec.get_model_matrix(df_new)" % (formula, name, formula)})
+    col.interesting()
+    col.sample({"name": name, "events": events})
+    col.state((name, tuple(events)))
+    ok = True
+    for i, (ev, g) in enumerate(zip(events, got)):
+        tag = "step %d (%s)" % (i + 1, ev)
+        if "error" in g:
+            ok = False
+            detail = tag + " raised " + g["error"]
+            break
+        if ev != "builtin":
+            want = [[2 * v + 1] for v in HIST_TRAIN]
+            if g["train"] != want:
+                ok, detail = False, tag + " returned %r, the user function gives %r" % (g["train"], want)
+                break
+            continue
+        if name == "poly":
+            pr = N.PolyRef(HIST_TRAIN, 2)
+            a = numpy.asarray(g["train"], dtype=float)
+            want = numpy.asarray(pr.train(), dtype=float)
+            bad = a.shape != want.shape or float(numpy.max(numpy.abs(a - want))) > pr.tol(2)
+            if not bad:
+                for row, t in zip(g["new"], HIST_NEW):
+                    vals, mags = pr.evaluate(t)
+                    if len(row) != 2 or any(abs(row[k] - vals[k]) > pr.tol(k + 1) * max(1.0, mags[k]) for k in range(2)):
+                        bad = True
+            if not bad:
+                bad = not numpy.allclose(numpy.asarray(g["again"], dtype=float), a, rtol=1e-12, atol=0)
+        else:
+            orc = ScaleOracle(HIST_TRAIN, (name, None))
+            col1 = [r[0] for r in g["train"]] if all(len(r) == 1 for r in g["train"]) else None
+            bad = col1 is None or len(col1) != len(HIST_TRAIN) or not orc.match(col1, HIST_TRAIN, 0)
+            if not bad:
+                orc.chosen = 0
+                col2 = [r[0] for r in g["new"]] if all(len(r) == 1 for r in g["new"]) else None
+                bad = col2 is None or len(col2) != len(HIST_NEW) or not orc.match(col2, HIST_NEW, 0)
+            if not bad:
+                bad = not numpy.allclose(numpy.asarray(g["again"], dtype=float), numpy.asarray(g["train"], dtype=float), rtol=1e-12, atol=0)
+        if bad:
+            ok, detail = False, tag + ": the preloaded %s does not fit / re-apply the recorded statistics: train %r, new data %r, recorded state keys %r" % (
+                name, g["train"], g["new"], g["state_keys"])
+            break
+        if not g["state_keys"]:
+            ok, detail = False, tag + ": nothing recorded in model_spec.transform_state"
+            break
+    # one key and one sig per history, whichever step shows it: the verdict must not depend on which step fails
+    if not ok:
+        col.violation("name-history :: %s %s" % (name, "->".join(events)), dict(rep.detail, failed=detail),
+                      sig="transform-name-resolution-leaks-between-formulas")
+
+
 # (offset, step) of the grids x = o + h*d: uniformly rescaled data (absolute thresholds) and a large common offset with
 # a small spread (cancellation in one-pass formulas); kappa = |o|/h ranges up to 1e9
 SCALE_GRIDS = [(0.0, 1e-8), (0.0, 1e-4), (0.0, 1e4), (0.0, 1e8), (1e3, 1e-3), (1e6, 1.0), (-1e6, 1.0), (1e6, 1e-3), (1e8, 1.0), (1.7e9, 1.0)]
@@ -854,6 +980,9 @@ def subchecks(tier, seed):
                                                      "D": [0.0, 1.0, 2.0, 5.0]}, shard_depth=3,
             bounds={"x": "o + h*d, d every vector of length 2..%d over {0,1,2,5}" % (3 if quick else 4),
                     "(o, h)": [list(g) for g in (POLY_GRIDS_F if quick else POLY_GRIDS)], "null": "none or first position", "outputs": outs}),
+        Sub("name-history", drv_name_history, {"D": 2 if quick else 3}, shard_depth=3,
+            bounds={"names": HIST_NAMES, "events": HIST_EVENTS, "history_length": "2" if quick else "2..3",
+                    "isolation": "each history runs in a fresh interpreter", "train": HIST_TRAIN, "new": HIST_NEW}),
         Sub("elementwise-direct", drv_elementwise, {"L": 2 if quick else 3}, shard_depth=2,
             bounds={"alphabet": [fmt(a) for a in EALPHA], "length": "1..%d" % (2 if quick else 3), "functions": sorted(N.ELEMENTWISE),
                     "containers": ["ndarray", "series", "scalar"]}),
